@@ -15,7 +15,11 @@ Supported: positional parameters; `if p is None: ...` blocks (skipped when p is 
 given); assignments to names and to tuples of names from calls of other translated
 functions; `+ - * /`, unary minus, `** n` for a small literal n; float/int literals (exact
 rationals); sin cos sqrt exp arcsin (bare, math.*, np.*), np.sinc, pi; chained comparisons
-`< <= > >=`, `and`; `if/else` whose branches return; `return` of an expression or a tuple.
+`< <= > >=`, `and`; `if/else` whose branches return; `return` of an expression or a (nested) tuple;
+`np.array(<nested tuple>, dtype=float)` (read as the nested tuple); `x += e`; arctan2;
+`if p is None: p = <expr>` for parameters declared as omitted by the caller (the default
+is taken: `np.zeros_like(.)` reads as 0); an `out=` keyword whose value is an omitted
+parameter is ignored (in-place output buffers do not change values).
 Anything else raises Untranslatable.
 """
 import ast
@@ -34,9 +38,10 @@ FUN1 = {"sin": "nsin", "cos": "ncos", "sqrt": "nsqrt", "exp": "nexp", "arcsin": 
 
 
 class Translator:
-    def __init__(self, known=None, given=()):
+    def __init__(self, known=None, given=(), omitted=()):
         self.known = dict(known or {})      # python function name -> (coq name, returns_tuple_arity)
         self.given = set(given)
+        self.omitted = set(omitted)         # parameters the caller leaves at their default None
 
     # -- expressions ---------------------------------------------------------
     def const(self, v):
@@ -82,9 +87,23 @@ class Translator:
             if op is None:
                 raise Untranslatable(f"operator {type(e.op).__name__}")
             return f"({op} N {a} {b})"
+        if isinstance(e, (ast.Tuple, ast.List)):
+            return "(" + ", ".join(self.expr(x) for x in e.elts) + ")"
         if isinstance(e, ast.Call):
             fn = e.func
             name = fn.id if isinstance(fn, ast.Name) else (fn.attr if isinstance(fn, ast.Attribute) else None)
+            # an `out=` keyword naming an omitted parameter (None): no output buffer, same values
+            kws = [k for k in e.keywords if not (k.arg == "out" and isinstance(k.value, ast.Name) and k.value.id in self.omitted)]
+            kws = [k for k in kws if not (k.arg == "out" and name in FUN1 and isinstance(k.value, ast.Name)
+                                          and len(e.args) == 1 and isinstance(e.args[0], ast.Name) and e.args[0].id == k.value.id)]
+            if name == "array" and len(e.args) == 1 and isinstance(e.args[0], (ast.Tuple, ast.List)) and \
+                    all(k.arg == "dtype" and isinstance(k.value, ast.Name) and k.value.id == "float" for k in kws):
+                return self.expr(e.args[0])
+            if name == "zeros_like" and len(e.args) == 1 and not kws:
+                return "(n0 N)"
+            if name == "arctan2" and len(e.args) == 2 and not kws:
+                return f"(natan2 N {self.expr(e.args[0])} {self.expr(e.args[1])})"
+            e = ast.Call(func=e.func, args=e.args, keywords=kws)
             if e.keywords and not (name in self.known):
                 raise Untranslatable("keyword arguments")
             if name in FUN1 and len(e.args) == 1:
@@ -130,8 +149,6 @@ class Translator:
 
     # -- statements ----------------------------------------------------------
     def ret(self, e):
-        if isinstance(e, ast.Tuple):
-            return "(" + ", ".join(self.expr(x) for x in e.elts) + ")"
         return self.expr(e)
 
     def block(self, stmts):
@@ -159,6 +176,9 @@ class Translator:
                     pat = f"({pat}, {n_})"
                 return f"let '{pat} := {self.expr(s.value)} in\n  {self.block(rest)}"
             raise Untranslatable("assignment target")
+        if isinstance(s, ast.AugAssign) and isinstance(s.target, ast.Name) and isinstance(s.op, (ast.Add, ast.Sub, ast.Mult)):
+            op = {ast.Add: "nadd", ast.Sub: "nsub", ast.Mult: "nmul"}[type(s.op)]
+            return f"let v_{s.target.id} := ({op} N v_{s.target.id} {self.expr(s.value)}) in\n  {self.block(rest)}"
         if isinstance(s, ast.If):
             t = s.test
             if (isinstance(t, ast.Compare) and len(t.ops) == 1 and isinstance(t.ops[0], ast.Is)
@@ -166,6 +186,8 @@ class Translator:
                     and isinstance(t.left, ast.Name)):
                 if t.left.id in self.given and not s.orelse:
                     return self.block(rest)  # parameter supplied by the caller: the default is not taken
+                if t.left.id in self.omitted and not s.orelse and all(isinstance(b, ast.Assign) for b in s.body):
+                    return self.block(list(s.body) + rest)   # parameter omitted: the default branch runs
                 raise Untranslatable(f"default of parameter {t.left.id}")
             if isinstance(t, ast.Compare) and rest == [] and s.orelse:
                 return f"if {self.cond(t)} then {self.block(s.body)} else {self.block(s.orelse)}"
@@ -178,7 +200,8 @@ class Translator:
 
     def function(self, src, pyname, coqname, params=None):
         tree = ast.parse(textwrap.dedent(src))
-        fns = [n for n in ast.walk(tree) if isinstance(n, ast.FunctionDef) and n.name == pyname]
+        fns = [n for n in tree.body if isinstance(n, ast.FunctionDef) and n.name == pyname] or \
+              [n for n in ast.walk(tree) if isinstance(n, ast.FunctionDef) and n.name == pyname]
         if not fns:
             raise Untranslatable(f"function {pyname} not found")
         fn = fns[-1]                       # a later definition shadows an earlier one
@@ -186,8 +209,8 @@ class Translator:
         args = [a.arg for a in fn.args.args]
         if fn.args.vararg or fn.args.kwarg or fn.args.kwonlyargs:
             raise Untranslatable("signature")
-        order = params or args
-        if sorted(order) != sorted(args):
+        order = params or [a for a in args if a not in self.omitted]
+        if sorted(order) != sorted(a for a in args if a not in self.omitted):
             raise Untranslatable(f"parameters of {pyname} are {args}")
         body = self.block(fn.body)
         binders = " ".join(f"v_{a}" for a in order)
@@ -197,3 +220,144 @@ class Translator:
 def source_of(module_relpath, src_root=None):
     root = src_root or os.environ.get("VERIF_ARIM_SRC") or "/repo/src"
     return open(os.path.join(root, "arim", module_relpath)).read()
+
+
+# ---------------------------------------------------------------------------
+# Typed variant for scalar numba kernels that mix integers (indices, sizes) and floats.
+# ---------------------------------------------------------------------------
+class KernelTranslator:
+    """Straight-line numba kernels over floats (type T of the Num record) and integers (Z).
+
+    Every expression is translated together with its type.  Reading of the Python operators,
+    fixed here and part of the trusted base of the tie:
+      a // d   on floats : nfloor N (a / d)                        (an integer, type Z)
+      a % d    on floats : a - d * nofZ (nfloor N (a / d))          (Python's sign-of-divisor modulo)
+      a % n    on integers: Z.modulo  (Python and Coq agree: sign of the divisor)
+      int(z)   of an integer-valued expression: identity
+      A[i, j]  for a parameter declared as a matrix: the function application  A i j
+      A.shape[0] for such a parameter: the size parameter declared for it
+      `if a != b: x = e1 else: x = e2`  is read as  x := if a =? b then e2 else e1
+    Mixed arithmetic coerces the integer operand with nofZ.  Anything else raises Untranslatable."""
+
+    def __init__(self, matrices=None):
+        self.matrices = dict(matrices or {})      # python parameter -> name of its size parameter
+        self.types = {}
+
+    def lit(self, v):
+        if isinstance(v, bool) or not isinstance(v, (int, float)):
+            raise Untranslatable(f"literal {v!r}")
+        if isinstance(v, int):
+            return f"({v})%Z", "Z"
+        fr = fractions.Fraction(v)
+        if fr.denominator == 1:
+            return f"(nofZ N ({fr.numerator})%Z)", "T"
+        return f"(ndiv N (nofZ N ({fr.numerator})%Z) (nofZ N ({fr.denominator})%Z))", "T"
+
+    def asT(self, te):
+        t, ty = te
+        return t if ty == "T" else f"(nofZ N {t})"
+
+    def expr(self, e):
+        if isinstance(e, ast.Constant):
+            return self.lit(e.value)
+        if isinstance(e, ast.Name):
+            if e.id not in self.types:
+                raise Untranslatable(f"unknown name {e.id}")
+            return f"v_{e.id}", self.types[e.id]
+        if isinstance(e, ast.Attribute) and e.attr == "pi" and isinstance(e.value, ast.Name) and e.value.id in ("np", "math"):
+            return "(npi N)", "T"
+        if isinstance(e, ast.UnaryOp) and isinstance(e.op, ast.USub):
+            t, ty = self.expr(e.operand)
+            return (f"(nopp N {t})", "T") if ty == "T" else (f"(- {t})%Z", "Z")
+        if isinstance(e, ast.Subscript):
+            v = e.value
+            # A.shape[0]
+            if (isinstance(v, ast.Attribute) and v.attr == "shape" and isinstance(v.value, ast.Name)
+                    and v.value.id in self.matrices and isinstance(e.slice, ast.Constant) and e.slice.value in (0, 1)):
+                return f"v_{self.matrices[v.value.id]}", "Z"
+            if isinstance(v, ast.Name) and v.id in self.matrices and isinstance(e.slice, ast.Tuple) and len(e.slice.elts) == 2:
+                i, j = (self.expr(x) for x in e.slice.elts)
+                if i[1] != "Z" or j[1] != "Z":
+                    raise Untranslatable("matrix index is not an integer")
+                return f"(v_{v.id} {i[0]} {j[0]})", "T"
+            raise Untranslatable("subscript")
+        if isinstance(e, ast.Call) and isinstance(e.func, ast.Name) and e.func.id == "int" and len(e.args) == 1:
+            t, ty = self.expr(e.args[0])
+            if ty != "Z":
+                raise Untranslatable("int() of a float expression")
+            return t, "Z"
+        if isinstance(e, ast.BinOp):
+            a, b = self.expr(e.left), self.expr(e.right)
+            bothZ = a[1] == "Z" and b[1] == "Z"
+            if isinstance(e.op, (ast.Add, ast.Sub, ast.Mult)):
+                if bothZ:
+                    return f"({a[0]} {'+-*'[(ast.Add, ast.Sub, ast.Mult).index(type(e.op))]} {b[0]})%Z", "Z"
+                op = {ast.Add: "nadd", ast.Sub: "nsub", ast.Mult: "nmul"}[type(e.op)]
+                return f"({op} N {self.asT(a)} {self.asT(b)})", "T"
+            if isinstance(e.op, ast.Div):
+                return f"(ndiv N {self.asT(a)} {self.asT(b)})", "T"
+            if isinstance(e.op, ast.FloorDiv):
+                if bothZ:
+                    return f"({a[0]} / {b[0]})%Z", "Z"
+                return f"(nfloor N (ndiv N {self.asT(a)} {self.asT(b)}))", "Z"
+            if isinstance(e.op, ast.Mod):
+                if bothZ:
+                    return f"({a[0]} mod {b[0]})%Z", "Z"
+                A, B = self.asT(a), self.asT(b)
+                return f"(nsub N {A} (nmul N {B} (nofZ N (nfloor N (ndiv N {A} {B})))))", "T"
+            raise Untranslatable(f"operator {type(e.op).__name__}")
+        raise Untranslatable(f"expression {type(e).__name__}")
+
+    def block(self, stmts):
+        if not stmts:
+            raise Untranslatable("falls off the end")
+        s, rest = stmts[0], stmts[1:]
+        if isinstance(s, ast.Expr) and isinstance(s.value, ast.Constant) and isinstance(s.value.value, str):
+            return self.block(rest)
+        if isinstance(s, ast.Return):
+            t, ty = self.expr(s.value)
+            self.ret_type = ty
+            return t
+        if isinstance(s, ast.Assign) and len(s.targets) == 1 and isinstance(s.targets[0], ast.Name):
+            t, ty = self.expr(s.value)
+            self.types[s.targets[0].id] = ty
+            return f"let v_{s.targets[0].id} := {t} in\n  {self.block(rest)}"
+        if isinstance(s, ast.If) and len(s.body) == 1 and len(s.orelse) == 1 and \
+                all(isinstance(b, ast.Assign) and len(b.targets) == 1 and isinstance(b.targets[0], ast.Name) for b in (s.body[0], s.orelse[0])) \
+                and s.body[0].targets[0].id == s.orelse[0].targets[0].id \
+                and isinstance(s.test, ast.Compare) and len(s.test.ops) == 1 and isinstance(s.test.ops[0], (ast.NotEq, ast.Eq)):
+            a, b = self.expr(s.test.left), self.expr(s.test.comparators[0])
+            if a[1] != "Z" or b[1] != "Z":
+                raise Untranslatable("equality test on floats")
+            e1, e2 = self.expr(s.body[0].value), self.expr(s.orelse[0].value)
+            if e1[1] != e2[1]:
+                raise Untranslatable("branches of different types")
+            if isinstance(s.test.ops[0], ast.NotEq):
+                e1, e2 = e2, e1
+            name = s.body[0].targets[0].id
+            self.types[name] = e1[1]
+            return f"let v_{name} := (if ({a[0]} =? {b[0]})%Z then {e1[0]} else {e2[0]}) in\n  {self.block(rest)}"
+        raise Untranslatable(f"statement {type(s).__name__}")
+
+    def function(self, src, pyname, coqname, params):
+        """params: list of (python name, kind) with kind in 'T', 'Z', 'M' (matrix Z -> Z -> T) or ('size', matrix):
+        a size parameter is added for every matrix."""
+        tree = ast.parse(textwrap.dedent(src))
+        fns = [n for n in ast.walk(tree) if isinstance(n, ast.FunctionDef) and n.name == pyname]
+        if not fns:
+            raise Untranslatable(f"function {pyname} not found")
+        fn = fns[-1]
+        args = [a.arg for a in fn.args.args]
+        if args != [p for p, k in params if k != "size"] or fn.args.vararg or fn.args.kwarg or fn.args.kwonlyargs:
+            raise Untranslatable(f"parameters of {pyname} are {args}")
+        binders = []
+        for p, k in params:
+            if k == "M":
+                binders.append(f"(v_{p} : Z -> Z -> T)")
+            elif k in ("T", "Z"):
+                self.types[p] = k
+                binders.append(f"(v_{p} : {k})")
+            else:
+                binders.append(f"(v_{p} : Z)")
+        body = self.block(fn.body)
+        return f"Definition {coqname} {{T : Type}} (N : Num T) {' '.join(binders)} :=\n  {body}."
